@@ -5,8 +5,8 @@ from typing import Any, Optional
 
 from ..absint import AObj, AbsRaise, Interp
 from ..antlrstubs import Console, install_antlr
-from ..codec import PATH, new_interp, run_reader
-from ..core import AnalysisError, Ctx, loc
+from ..codec import same_content, PATH, new_interp, run_reader
+from ..core import AnalysisError, Ctx, is_library_error, loc
 from ..iostubs import VFS
 from ..model import ModelBuilder, freeze_model, rich_model, snapshot
 from ..pm import ClassInfo, ProgramModel
@@ -180,6 +180,12 @@ def check(pm: ProgramModel, ctx: Ctx) -> None:
                     ctx.violation("C12-NOSOURCES", f"source:{ci.name}", a["raise"][1] or where,
                                   f"{ci.name}.transform consults {what.split(' ', 1)[1]}: the output is not a "
                                   f"function of the model alone")
+                elif is_library_error(pm, what):
+                    # the writer declines the model with the library's own error (the abstract model may lie outside
+                    # its format): nothing written, nothing returned - C12 has nothing to say; the export / round-trip
+                    # properties decide which models a writer must accept
+                    ctx.info("C12-TOTAL", f"declines:{ci.name}", a["raise"][1] or where,
+                             f"{ci.name}.transform declines the abstract model: {what}")
                 else:
                     ctx.violation("C12-TOTAL", f"raises:{ci.name}", a["raise"][1] or where,
                                   f"{ci.name}.transform raises on a well-formed model: {what}")
@@ -188,7 +194,7 @@ def check(pm: ProgramModel, ctx: Ctx) -> None:
             ctx.check(snapshot(m_asc) == before, "C12-PURE", f"unchanged:{ci.name}", where,
                       "structural snapshot of the model unchanged",
                       bad=f"{ci.name}.transform leaves the model structurally changed")
-            ctx.check(a["returned"] == a["written"] and a["written"] is not None, "C12-RETURN",
+            ctx.check(same_content(a["returned"], a["written"]), "C12-RETURN",
                       f"returned=written:{ci.name}", where, "value returned equals the content written",
                       bad=f"{ci.name}.transform returns {str(a['returned'])[:50]!r}... but writes "
                           f"{str(a['written'])[:50]!r}...")
@@ -244,14 +250,14 @@ def check(pm: ProgramModel, ctx: Ctx) -> None:
                                   f"attributes): {c1['raise'][0]}")
                 else:
                     c2 = run(pm, ci, cm, "asc")
-                    okc = snapshot(cm) == cbefore and c1["returned"] == c1["written"] and c1["written"] is not None \
+                    okc = snapshot(cm) == cbefore and same_content(c1["returned"], c1["written"]) \
                         and c2["returned"] == c1["returned"]
                     ctx.check(okc, "C12-RETURN", f"corner-model:{ci.name}", where,
                               "on the corner model too: model unchanged, returned = written, repeated call identical",
                               bad=f"{ci.name} on a model with control characters in names / value-less attributes: "
-                                  f"model unchanged={snapshot(cm) == cbefore}, returned=written={c1['returned'] == c1['written']}, "
+                                  f"model unchanged={snapshot(cm) == cbefore}, returned=written={same_content(c1['returned'], c1['written'])}, "
                                   f"repeat identical={c2['returned'] == c1['returned']} "
-                                  f"({_first_diff(c1['returned'], c1['written']) if c1['returned'] != c1['written'] else _first_diff(c1['returned'], c2['returned'])})")
+                                  f"({_first_diff(c1['returned'], c1['written']) if not same_content(c1['returned'], c1['written']) else _first_diff(c1['returned'], c2['returned'])})")
         # read-back side: the streams the readers open
         readers_encoding(pm, ctx, mb)
     ctx.floor("C12", "obligations", len(ctx.obligations), 40)
